@@ -467,7 +467,11 @@ theorem stageC_from_quiet {x : Pair} (hc : Coupled2 x) (hoth : OtherAct x.child.
     have hC := hpost.stageC_of_quiet hp2
     rw [hC.sync_eq f2]; exact ⟨hC, hoth1⟩
   | true =>
-    have hr := syncR2_spec hpost.coupled.inv hpost.coupled.ok now na f2 hp2
+    have hansw : Answerable (x.sync now na f1) := by
+      intro r rc hg hp _
+      obtain ⟨R, _, hoff, _⟩ := hpost.cls r rc hg hp
+      exact ⟨R, offers_answer hpost.coupled.names hoff⟩
+    have hr := syncR2_spec hpost.coupled.inv hpost.coupled.ok hansw now na f2 hp2
     refine ⟨hpost.stageC_of_requests hr, ?_⟩
     intro r rc' hg hp
     rw [hr.ph] at hp
@@ -486,12 +490,16 @@ theorem conv_from_stageC {y : Pair} {now na : Int} (hC : StageC y now na) (hoth 
     have hconv := hD.conv_of_quiet hp
     rw [hconv.sync_eq f]; exact hconv
   | true =>
-    exact hD.conv_of_requests (syncR2_spec hD.coupled.inv hD.coupled.ok now na f hp)
+    have hansw : Answerable ({ y with child := y.child.next (.keyrollActivate na') } : Pair) := by
+      intro r rc hg hp _
+      obtain ⟨R, _, hoff, _⟩ := hD.cls r rc hg hp
+      exact ⟨R, offers_answer hD.coupled.names hoff⟩
+    exact hD.conv_of_requests (syncR2_spec hD.coupled.inv hD.coupled.ok hansw now na f hp)
 
 /-- The schedule sync, sync, sync, activate, sync from ANY coupled pair, a key roll of the child in
 any stage included: converged.  New keys are needed by the sync that fetches the entitlements. -/
-theorem converges_roll {x : Pair} (hc : Coupled2 x) (hoth : OtherAct x.child.ca x.ph) (now na na' : Int)
-    (f1 f2 f3 f4 : List KeyId)
+theorem converges_roll {x : Pair} (hc : Coupled2 x) (hoth : OtherAct x.child.ca x.ph) (hansw : Answerable x)
+    (now na na' : Int) (f1 f2 f3 f4 : List KeyId)
     (hf : if x.child.ca.hasPendingRequests x.ph then x.parent.ca.classes.length ≤ f2.length ∧ FreshOk x f2
       else x.newClasses na ≤ f1.length ∧ FreshOk x f1) :
     Conv (((((x.sync now na f1).sync now na f2).sync now na f3).activate na').sync now na f4) now na := by
@@ -503,7 +511,7 @@ theorem converges_roll {x : Pair} (hc : Coupled2 x) (hoth : OtherAct x.child.ca 
     exact conv_from_stageC hC hoth2 na' f4
   | true =>
     simp only [hpend, if_true] at hf
-    have hr := syncR2_spec hc.inv hc.ok now na f1 hpend
+    have hr := syncR2_spec hc.inv hc.ok hansw now na f1 hpend
     have hc1 := hr.coupled hc
     have hlen : (x.sync now na f1).parent.ca.classes.length = x.parent.ca.classes.length :=
       hr.same.classes_length (reachable_inv hc.inv.base.rp).core.nodup (reachable_inv hr.inv.base.rp).core.nodup
